@@ -43,9 +43,8 @@ impl<'a> AssociatedTypes<'a> {
         self.without_error()
             .map(|associated| {
                 let name = &associated.ident;
-                let colon = &associated.colon_token;
                 let bound = &associated.bounds;
-                parse_quote! { #name #colon #bound }
+                parse_quote! { #name : #bound }
             })
             .collect()
     }
@@ -106,9 +105,8 @@ impl ItemType for TraitItemType {
 
     fn as_where_predicate(&self) -> WherePredicate {
         let name = &self.ident;
-        let colon = &self.colon_token;
         let bound = &self.bounds;
-        parse_quote! { #name #colon #bound }
+        parse_quote! { #name : #bound }
     }
 }
 
